@@ -662,7 +662,15 @@ impl Shadow {
                 "block of #{} freed inside the critical section of t{} which holds a {} of it (from {})",
                 o, h.tid, if h.weak { "WeakSnapshot" } else { "Snapshot" }, h.src.name()
             );
-            let p = if h.weak { "C03" } else { "C02" };
+            // C13 in its second form, for the memory block: the holder read the pointer from a
+            // cell inside this critical section, so the block was linked then and whatever
+            // unlinked it did so during the critical section
+            let p = match (h.weak, h.src) {
+                (true, Src::WLoad | Src::WCasCurrent | Src::WCasTagResult) => "C03,C13",
+                (true, _) => "C03",
+                (false, Src::Load | Src::CasCurrent | Src::CasTagResult) => "C02,C13",
+                (false, _) => "C02",
+            };
             sim().violation(p, "free-under-snapshot", &format!("free-under-snapshot/src={}", h.src.name()), &det);
         }
     }
